@@ -394,6 +394,32 @@ theorem c19_parse_delay (fs : FloatSem F) (self : Obj F) (num ws : List Char) (h
     rw [pFloat_str]; unfold floatRes
     cases fs.parse num <;> rfl
 
+/-- **C19, delays, every spelling the schema allows**: whenever the whole delay string matches the
+    `Nml2Quantity_time` pattern (`matchTime`, a recogniser for it), the string is `<num><ws>ms` or `<num><ws>s`
+    and `get_delay_in_ms` / `_parse_delay` return `float(<num>)`, respectively `float(<num>) * 1000.0`
+    (`ValueError` for the degenerate spellings without a number). In particular the pattern admits no unit
+    containing an `s` other than `s` and `ms`. -/
+theorem c19_delay_all_spellings (fs : FloatSem F) (self : Obj F) (s : List Char) (hm : matchTime s = true)
+    (hs : self "delay" = some (.str s)) :
+    ∃ num ws, TimeSpelling num ws ∧
+      ((s = num ++ ws ++ ['m', 's'] ∧ getDelayInMs fs self = floatRes fs num none ∧
+          parseDelay fs self (pstr s) = floatRes fs num none) ∨
+       (s = num ++ ws ++ ['s'] ∧ getDelayInMs fs self = floatRes fs num (some fs.thousand) ∧
+          parseDelay fs self (pstr s) = floatRes fs num (some fs.thousand))) := by
+  obtain ⟨num, ws, h1, h2, h3⟩ := matchTime_decompose s hm
+  have ht : TimeSpelling num ws := ⟨h1, h2⟩
+  refine ⟨num, ws, ht, ?_⟩
+  rcases h3 with h3 | h3
+  · right
+    subst h3
+    exact ⟨rfl, c19_delay_s fs self num ws ht hs, (c19_parse_delay fs self num ws ht).2⟩
+  · left
+    subst h3
+    exact ⟨rfl, c19_delay_ms fs self num ws ht hs, (c19_parse_delay fs self num ws ht).1⟩
+
+example : matchTime "-1.5E-2 \t ms".toList = true := by decide
+example : matchTime "5.s".toList = false := by decide
+
 /-- what the code does outside the pattern (no `s` at all, e.g. `"5"`): `get_delay_in_ms` returns `None`,
     `_parse_delay` exits. (Not a clause of the property; documents the modelled behaviour.) -/
 theorem delay_without_unit (fs : FloatSem F) (self : Obj F) (s : List Char) (h : 's' ∉ s)
@@ -577,5 +603,52 @@ theorem c19_summary_line_cells (net : Net) :
       "*   " ++ toString (total summaryTable net .cells) ++ " cells in "
         ++ toString (total summaryTable net .pops) ++ " populations " := by
   simp [renderLine, List.foldl]
+
+/-! ## the hypotheses above are satisfiable (non-vacuity) -/
+
+/-- an object with one attribute -/
+def obj1 (name : String) (v : Val Int) : Obj Int := fun n => if n = name then some v else none
+
+example : ∃ f, Cls.accessor (F := Int) .ElectricalConnectionInstanceW .get_post_cell_id = some f ∧
+    f toySem (obj1 "post_cell" (.str "../pop_0/42/c".toList)) = .ok (.int 42) :=
+  c19_cell_id_accessors toySem .ElectricalConnectionInstanceW .get_post_cell_id "post_cell" rfl _
+    "../pop_0/42/c".toList 42 (by simp [obj1])
+    (c19_cell_path_of_nat "pop_0".toList "c".toList 42 (by decide) (by decide) false).1
+
+example : ∃ f, Cls.accessor (F := Int) .ExplicitInput .get_target_cell_id = some f ∧
+    f toySem (obj1 "target" (.str "../p[007]".toList)) = .ok (.int 7) :=
+  c19_cell_id_accessors toySem .ExplicitInput .get_target_cell_id "target" rfl _ "../p[007]".toList 7
+    (by simp [obj1]) (CellPath.bracket true "p".toList "007".toList (by decide) (by decide))
+
+/-- a stored zero fraction is returned (value `0` of the toy semantics), the default only for `None` -/
+example : inputFractionAlong toySem (obj1 "fraction_along" (.num 0)) = .ok (.num 0) ∧
+    inputFractionAlong toySem (obj1 "fraction_along" .none) = .ok (.num 1) :=
+  ⟨(c19_input_fraction_along toySem _ _ (by simp [obj1])).1 0 rfl,
+   (c19_input_fraction_along toySem _ _ (by simp [obj1])).2 rfl⟩
+
+/-- ... which the code before the repair did not do -/
+example : inputFractionAlongTruthy toySem (obj1 "fraction_along" (.num 0)) = .ok (.num 1) :=
+  c19_truthy_fraction_witness toySem _ 0 (by simp [obj1]) rfl
+
+example : inputSegmentId toySem (obj1 "segment_id" (.int 3)) = .ok (.int 3) :=
+  (c19_input_segment_id toySem _ _ (by simp [obj1])).1 3 rfl
+
+example : getWeight toySem (obj1 "weight" (.num 0)) = .ok (.num 0) ∧
+    getWeight toySem (obj1 "weight" .none) = .ok (.num 2) :=
+  ⟨(c19_get_weight toySem _ _ (by simp [obj1])).1 0 rfl, (c19_get_weight toySem _ _ (by simp [obj1])).2 rfl⟩
+
+example : getDelayInMs toySem (obj1 "delay" (.str "0.5 \t s".toList)) = floatRes toySem "0.5".toList (some 2000) :=
+  c19_delay_s toySem _ "0.5".toList " \t ".toList ⟨by decide, by decide⟩ (by simp [obj1])
+
+example : HasInfoAttrs (F := Int) (fun n =>
+    if n = "pre_segment_id" ∨ n = "post_segment_id" then some (.int 0)
+    else if n = "pre_fraction_along" ∨ n = "post_fraction_along" then some (.num 1) else none) :=
+  ⟨.int 0, .int 0, .num 1, .num 1, by simp, by simp, by simp, by simp⟩
+
+example : ∃ self : Obj Int, self "instances" = some (.objs 3) ∧ self "size" = some (.int 9) ∧
+    getSize toySem self = .ok (.int 3) := by
+  refine ⟨fun n => if n = "instances" then some (.objs 3) else if n = "size" then some (.int 9) else none,
+    by simp, by simp, ?_⟩
+  exact (c19_get_size toySem _ 3 (.int 9) (by simp) (by simp)).1 (by decide)
 
 end NmlVerif.Acc
